@@ -134,6 +134,7 @@ func (dr *DialogueRunner) Next(choice int) (*DialogueElement, error) {
 			},
 		}, nil
 	case nextStatement.ShortcutOptionStatement != nil:
+		dr.lastStatement = nil // a choice is only expected once the options have been shown
 		options := make([]DialogueOption, 0, len(nextStatement.ShortcutOptionStatement.Options))
 		for i, option := range nextStatement.ShortcutOptionStatement.Options {
 			markupResult, err := dr.textElementsToMarkup(option.LineStatement.Text.Elements)
@@ -158,6 +159,7 @@ func (dr *DialogueRunner) Next(choice int) (*DialogueElement, error) {
 				Disabled: disabled,
 			})
 		}
+		dr.lastStatement = nextStatement
 		return &DialogueElement{
 			Node:    dr.currentNode,
 			Options: options,
